@@ -12,19 +12,19 @@ var stdAssumptions = []string{
 // the check should see above zero; those at zero are reported as blind spots.
 var expectedReach = map[string][]string{
 	"C17": {"pool.reuse", "pool.miss-with-items", "pool.drop", "garblings-compared-with-run-alone"},
-	"C08": {"map.range", "map.range.permuted", "job.separate-process", "job.reused-compiler-with-history", "job.same-program-twice-on-one-instance"},
+	"C08": {"map.range", "map.range.permuted", "job.separate-process", "job.reused-compiler-with-history", "job.same-program-twice-on-one-instance", "job.history-with-other-tuning-parameters"},
 	"C14": {"roundtrip.mpclc", "roundtrip.bristol", "file>4KiB", "rejected-with-error", "accepted-well-formed", "discarded: declared size above one million"},
 	"C04": {"whole-circuit.transcripts-scanned", "streaming.transcripts-scanned", "sha2pc.transcripts-scanned", "tamper.ot-request-rewritten"},
 	"C18": {"curve.P-256", "curve.P-224", "curve.P-384", "mixing.rejected", "mixing.other-curve", "mixing.sizes-compared", "mutation.rejected", "mutation.still-decodes", "round3.other-length-refused"},
-	"C10": {"parties=2", "parties=3", "parties=4", "parties=5", "circuit.compiled-for-GMW", "circuit.and-levels>3", "triples.checked-words", "cond.wakeup"},
+	"C10": {"parties=2", "parties=3", "parties=4", "parties=5", "circuit.compiled-for-GMW", "circuit.and-levels>3", "triples.checked-words", "cond.wakeup", "knob.gmw.lowWaterMark"},
 	"C05": {"program.generated", "program.corpus", "wires>65535"},
 	"C20": {"scenario.vole.Mul", "vole.multi-chunk", "vole.repeated-mul-on-one-instance"},
-	"C15": {"sender-aborted-on-tampering", "honest-accepted", "accepted-with-intact-correlation(unselected column or padding row or response-only)"},
+	"C15": {"sender-aborted-on-tampering", "honest-accepted", "accepted-with-intact-correlation(unselected column or padding row or response-only)", "mode.cot-session", "cot-sender-aborted-on-tampering"},
 	"C06": {"kind.CO", "kind.RSA-1024", "kind.COT", "kind.COT-malicious", "kind.ROT", "kind.ROT-malicious", "batch.n%8!=0", "batch.n%64!=0,n>64", "batch.multi-chunk", "batch.repeated-on-one-instance"},
-	"C16": {"outcome.garbler-error", "outcome.session-stalled", "outcome.garbler-correct-despite-corruption", "mode.whole-circuit", "mode.streaming"},
+	"C16": {"outcome.garbler-error", "outcome.session-stalled-then-aborted:garbler-error", "outcome.garbler-correct-despite-corruption", "mode.whole-circuit", "mode.streaming"},
 	"C02": {"pipe.short-reads", "pipe.writer-blocked", "pipe.one-byte-reads", "ot.CO", "ot.COT", "ot.COT-malicious", "ot.RSA-1024", "circuit.multi-output", "circuit.compiled-from-mpcl"},
 	"C19": {"net.data-before-accept", "net.backlog>1", "mutex.contended", "cond.wakeup"},
-	"C11": {"pipe.short-reads", "pipe.writer-blocked", "pipe.reader-blocked", "pipe.one-byte-reads"},
+	"C11": {"pipe.short-reads", "pipe.writer-blocked", "pipe.reader-blocked", "pipe.one-byte-reads", "knobs.small-buffers", "fault.write-error-reported-by-close", "fault.write-error-reported-by-send-or-flush"},
 }
 
 var props = map[string]propCfg{
@@ -36,7 +36,7 @@ var props = map[string]propCfg{
 	},
 	"C08": {
 		Variant: "c08", Quick: 30 * time.Second, Thorough: 12 * time.Minute, Level: "exploration", DetSample: 12,
-		Rule:        "one case = one program (crafted programs importing 3-4 library packages with package-level variables and constants 3/8; testsuite and example programs 3/8; generated MPCL programs 2/8) and one parameter set (prune on/off, Yao/GMW), compiled in 2..3 jobs: every `range` over a map in the compile path (compiler, ast, ssa, circuits, utils, mpa, types, circuit; build variant c08) iterates in a tape-chosen order (canonical, reversed, rotated, shuffled), each job after a tape-chosen history (0..3 earlier compilations of other programs; one reused compiler.Compiler value or fresh ones; one shared or fresh Params; the program itself twice on one instance), and 1/4 of the cases run the last job in a separate worker process; oracle: Circuit.Marshal bytes, MarshalBristol bytes, SSA listing and input/output description identical across the jobs; non-trivial = at least one map range was permuted; distinct = distinct SHA-256 of the event log (program, artefact hashes, map-order decisions)",
+		Rule:        "one case = one program (crafted programs importing 3-4 library packages with package-level variables and constants, or generated import-set programs with 1..5 imports of such packages, 3/8; testsuite and example programs 3/8; generated MPCL programs 2/8) and one parameter set (prune on/off, Yao/GMW), compiled in 2..3 jobs: every `range` over a map in the compile path (compiler, ast, ssa, circuits, utils, mpa, types, circuit; build variant c08) iterates in a tape-chosen order (canonical, reversed, rotated, shuffled), each job after a tape-chosen history (0..3 earlier compilations of other programs, a third of them on their own Compiler with other tuning parameters - multiplier threshold, prune, target - and half of those of the program itself; one reused compiler.Compiler value or fresh ones; one shared or fresh Params; the program itself twice on one instance), and 1/4 of the cases run the last job in a separate worker process; oracle: Circuit.Marshal bytes, MarshalBristol bytes, SSA listing and input/output description identical across the jobs; non-trivial = at least one map range was permuted; distinct = distinct SHA-256 of the event log (program, artefact hashes, map-order decisions)",
 		Components:  map[string]string{"compiler, ast, ssa, circuits, mpa, types, circuit.Marshal*": "real code (map ranges rewritten to the simulator's permuting iterator)", "map iteration order, process boundary": "simulator / child worker process"},
 		Assumptions: append([]string{"map iteration orders are permutations of a canonical key order; maps with pointer keys cannot be ordered canonically and keep Go's native order (counted in reach counter map.range.unsortable-key)"}, stdAssumptions...),
 	},
@@ -60,7 +60,7 @@ var props = map[string]propCfg{
 	},
 	"C10": {
 		Quick: 35 * time.Second, Thorough: 12 * time.Minute, Level: "exploration", DetSample: 8,
-		Rule:        "one case = one seeded GMW session of N in 2..5 parties on the simulated network: circuit generated (XOR/XNOR/AND/INV, 1..12-bit inputs, up to 300 gates, AND-heavy shapes with many levels and batch sizes not multiple of 64) or compiled from a small N-party MPCL program for the GMW target; inputs zero/ones/single-bit/random; a harness Pool.Get(n) with n in {1,63,64,65,100,127,129,1000,4095,4097} at every party before Run; start delays before Join, Connect and Run, dial latency, socket capacity, fragmentation, latency and every interleaving decision of the parties' main, accept, triple-producer and connection-writer tasks from the tape; oracle = truth-table evaluation and the triple relation on every bit; non-trivial = more than 4 task switches; distinct = distinct SHA-256 of the event log",
+		Rule:        "one case = one seeded GMW session of N in 2..5 parties on the simulated network: circuit generated (XOR/XNOR/AND/INV, 1..12-bit inputs, up to 300 gates, AND-heavy shapes with many levels and batch sizes not multiple of 64) or compiled from a small N-party MPCL program for the GMW target; inputs zero/ones/single-bit/random; a harness Pool.Get(n) with n in {1,63,64,65,100,127,129,1000,4095,4097} at every party before Run; in half of the cases the triple pool's tuning knobs are set (low-water mark 0..8 words, batches of 64..512 triples; build-time knobs of the overlay, default = the shipped 4096 words / 4096 / 8192 triples) so that the producer/consumer refill protocol runs in every session; start delays before Join, Connect and Run, dial latency, socket capacity, fragmentation, latency and every interleaving decision of the parties' main, accept, triple-producer and connection-writer tasks from the tape; oracle = truth-table evaluation and the triple relation on every bit; non-trivial = more than 4 task switches; distinct = distinct SHA-256 of the event log",
 		Components:  map[string]string{"gmw.Network/TriplePool/Peer, p2p.Conn, ot.CO, ot.IKNP SendBits/ReceiveBits": "real code (rewritten go/chan/sync/net/crypto-rand)", "TCP": "simulated (simnet)", "crypto/rand": "per-party seeded DRBG", "reference": "harness truth-table evaluator"},
 		Assumptions: stdAssumptions,
 	},
@@ -78,7 +78,7 @@ var props = map[string]propCfg{
 	},
 	"C15": {
 		Quick: 20 * time.Second, Thorough: 8 * time.Minute, Level: "fault_enumeration",
-		Rule:        "one case = one IKNP instance (sender task, receiver task, message-level ot.IO) serving 8..47 malicious-mode trials, each with a batch size from {1,2,7,8,9,15..17,63..65,127..129,511..513,600,1024,1025}, a choice vector and a tampering plan from the fault stream: honest; one bit (column,row) of the payload extension matrix; one bit of the 256-row check batch; 2..8 simultaneous flips; alteration of seed2/x/t0/t1 alone or with a flip; oracle: honest never aborts, acceptance implies recv = sent xor choice*Delta for the receiver's original choices; non-trivial = every case; distinct = distinct SHA-256 of the event log",
+		Rule:        "one case = one IKNP instance (sender task, receiver task, message-level ot.IO) serving 8..47 malicious-mode trials, each with a batch size from {1,2,7,8,9,15..17,63..65,127..129,511..513,600,1024,1025}, a choice vector and a tampering plan from the fault stream: honest; one bit (column,row) of the payload extension matrix; one bit of the 256-row check batch; 2..8 simultaneous flips; alteration of seed2/x/t0/t1 alone or with a flip; oracle: honest never aborts, acceptance implies recv = sent xor choice*Delta for the receiver's original choices; one case in five instead runs a pair of ot.COT instances created with malicious=true through 1..4 Send/Receive batches with the alterations in the last batch (oracle: abort, or every label the receiver holds is the one its original choice selects); non-trivial = every case; distinct = distinct SHA-256 of the event log",
 		Components:  map[string]string{"ot.IKNPSender.Send / IKNPReceiver.Receive (malicious), gf128, mul128": "real code", "base OTs": "stub (both labels in clear) in 15/16 of the cases, real Chou-Orlandi otherwise", "transport + tamperer": "message-level ot.IO of the simulator (simio)"},
 		Assumptions: stdAssumptions,
 	},
@@ -90,13 +90,13 @@ var props = map[string]propCfg{
 	},
 	"C16": {
 		Quick: 25 * time.Second, Thorough: 10 * time.Minute, Level: "fault_enumeration", MemLimitMB: 6144,
-		Rule:        "one case = one clean reference session plus 4..11 corrupted sessions of the same circuit, inputs and randomness (whole-circuit and streaming mode), each with a corruption plan drawn from the fault stream: 1..4 faults, direction G->E or E->G, byte offset (head-, tail- and uniformly-biased) within the clean transcript, single-bit/0xff/random-mask flip or 2..41-byte burst; the garbler's outcome must be error, stall/abort or the truth-table result; non-trivial = at least one fault fired; distinct = distinct SHA-256 over the event logs of all sessions of the case",
+		Rule:        "one case = one clean reference session plus 4..11 corrupted sessions of the same circuit, inputs and randomness (whole-circuit and streaming mode), each with a corruption plan drawn from the fault stream: 1..4 faults, direction G->E or E->G, byte offset (head-, tail- and uniformly-biased) within the clean transcript, single-bit/0xff/random-mask flip, arithmetic rewrite of the clean byte (zero, minus one, halved) or 2..41-byte burst, a third of the cases as a window of 16..48 consecutive offsets; a stalled session has both sockets closed by the simulator and the parties run on; the corrupted sessions run on a simulated machine granting single allocations up to 8x the clean session's largest; the garbler's outcome must be error, stall/abort or the truth-table result; non-trivial = at least one fault fired; distinct = distinct SHA-256 over the event logs of all sessions of the case",
 		Components:  map[string]string{"circuit.Garbler/Evaluator, compiler Stream/StreamEvaluator, p2p.Conn, ot.*": "real code", "transport + corruption": "simulated pipe with fault plan", "reference": "harness truth-table evaluator"},
 		Assumptions: append([]string{"workers run under an address-space limit; a worker killed by it (a corrupted count made the code under test allocate gigabytes) counts as an aborted session for that one trial"}, stdAssumptions...),
 	},
 	"C02": {
 		Quick: 25 * time.Second, Thorough: 10 * time.Minute, Level: "exploration",
-		Rule:        "one case = one seeded two-party session circuit.Garbler vs circuit.Evaluator over two p2p.Conn on a simulated pipe: generated circuit (1..24-bit inputs, 1..4 outputs of width 1..17, 0..400 gates of all five kinds, fan-out, same wire twice, INV-only/XNOR-heavy/OR-heavy shapes), inputs (zero/ones/single-bit/random), OT in {CO, COT, COT-malicious, RSA-1024, RSA-2048(thorough)}, per-direction capacity (0=rendezvous..unbounded), fragmentation, latency and the schedule of the 4 tasks from the tape; oracle = harness truth-table evaluator; non-trivial = more than 2 task switches; distinct = distinct SHA-256 of the event log (decisions, transport events, payload bytes)",
+		Rule:        "one case = one seeded two-party session circuit.Garbler vs circuit.Evaluator over two p2p.Conn on a simulated pipe: generated circuit (1..24-bit inputs, one case in ten with a 0-bit argument for one party, 1..4 outputs of width 1..17, 0..400 gates of all five kinds, fan-out, same wire twice, INV-only/XNOR-heavy/OR-heavy shapes), inputs (zero/ones/single-bit/random), OT in {CO, COT, COT-malicious, RSA-1024, RSA-2048(thorough)}, per-direction capacity (0=rendezvous..unbounded), fragmentation, latency and the schedule of the 4 tasks from the tape; oracle = harness truth-table evaluator; non-trivial = more than 2 task switches; distinct = distinct SHA-256 of the event log (decisions, transport events, payload bytes)",
 		Components:  map[string]string{"circuit.Garbler/Evaluator/Garble/Eval, p2p.Conn, ot.CO/COT/RSA/IKNP": "real code", "transport": "simulated pipe", "crypto/rand": "seeded AES-CTR DRBG per party", "reference": "harness truth-table evaluator (gen.Eval)"},
 		Assumptions: stdAssumptions,
 	},
@@ -108,7 +108,7 @@ var props = map[string]propCfg{
 	},
 	"C11": {
 		Quick: 20 * time.Second, Thorough: 8 * time.Minute, Level: "exploration",
-		Rule:        "one case = one seeded run of two p2p.Conn over a simulated pipe: typed send sequences per direction (0..40 ops, payload sizes around 0/16/64Ki/1Mi/3Mi), flush placement, per-direction capacity (0=rendezvous..unbounded), read fragmentation (1 byte..whole), latency and the schedule of the 8 tasks all drawn from the tape; non-trivial = at least one operation and more than 2 task switches; distinct = distinct SHA-256 of the run's event log (every scheduling decision, transport event and payload byte)",
+		Rule:        "one case = one seeded run of two p2p.Conn over a simulated pipe: typed send sequences per direction (0..40 ops, payload sizes around 0/16/64Ki/1Mi/3Mi), flush placement, per-direction capacity (0=rendezvous..unbounded), read fragmentation (1 byte..whole), latency and the schedule of the 8 tasks all drawn from the tape; a third of the cases shrink the connection's buffers through build-time knobs of the overlay (write buffers of 16..4096 bytes, 1..5 of them, read window of 16..65536 bytes; default = the shipped 64 KiB x 3 / 1 MiB); one case in six is a fault case: one Write of A's transport fails once at a tape-chosen offset without moving anything and the only clause is that A is told by some Send*/Flush or by Close; non-trivial = at least one operation and more than 2 task switches; distinct = distinct SHA-256 of the run's event log (every scheduling decision, transport event and payload byte)",
 		Components:  map[string]string{"p2p.Conn (incl. writer goroutine, buffer ring)": "real code (rewritten go/chan/atomic)", "transport": "simulated pipe (simnet)", "goroutine scheduling, channels": "simulator", "receiver model": "FIFO of typed values (harness)"},
 		Assumptions: stdAssumptions,
 	},
